@@ -68,6 +68,11 @@ def signature(e, tsig):
     # known: a string that came out of fq's fromjson, fed to fromjson again, is parsed from its source text (see known_findings.txt)
     if tsig in ('jq.fq_differs', 'jq.cli_differs') and re.search(r'fromjson\??\)*\s*\|\s*\(*fromjson', prog):
         return 'jq.diff:fromjson_of_fromjson_string'
+    # known: split/1 with a backslash in the separator (see known_findings.txt)
+    if tsig in ('jq.fq_differs', 'jq.cli_differs'):
+        for m in re.finditer(r'split\("((?:[^"\\]|\\.)*)"\)|/ "((?:[^"\\]|\\.)*)"', prog):
+            if '\\\\' in (m.group(1) or m.group(2) or ''):
+                return 'jq.diff:split1_backslash'
     return '%s:%s' % (tsig.replace('jq.', 'jq.diff:', 1) if tsig.startswith('jq.fq_differs') or tsig.startswith('jq.cli_differs') else tsig,
                       '+'.join(names[:4]) or 'core')
 
